@@ -846,6 +846,19 @@ theorem nexus_header_consistent_partial (f : Nexus.Facts) (o : POpts) (bs : List
       rw [← e]
       exact h2 (by rw [e]; exact hne)
 
+/-- `#NEXUS begin data; dimensions ntax=9; endblock; begin trees; dimensions ntax=1; matrix a AC ; end;` -/
+def nexusEndblockSample : List Byte := [35, 78, 69, 88, 85, 83, 10, 98, 101, 103, 105, 110, 32, 100, 97, 116, 97, 59, 10, 100, 105, 109, 101, 110, 115, 105, 111, 110, 115, 32, 110, 116, 97, 120, 61, 57, 59, 10, 101, 110, 100, 98, 108, 111, 99, 107, 59, 10, 98, 101, 103, 105, 110, 32, 116, 114, 101, 101, 115, 59, 10, 100, 105, 109, 101, 110, 115, 105, 111, 110, 115, 32, 110, 116, 97, 120, 61, 49, 59, 10, 109, 97, 116, 114, 105, 120, 10, 97, 32, 65, 67, 10, 59, 10, 101, 110, 100, 59, 10]
+
+set_option maxRecDepth 100000 in
+/-- **the reading hypothesis of `nexus_header_consistent_partial` is not a theorem**: the parser does not know
+`ENDBLOCK` (the standard synonym of `END`): it skips it as an unsupported command, stays in the DATA block, skips
+`begin trees;` likewise and lets the second `dimensions` overwrite `ntax`.  The parse succeeds with ONE row although
+the DATA block — as the naive scanner, which closes the block at `endblock`, reads it — declares `ntax=9`.
+Reproduce: `goalign reformat fasta --nexus -i <file>` (two "unsupported command" warnings, then `>a / AC`). -/
+theorem nexus_header_counterexample_endblock :
+    Nexus.parse ⟨true, true, true, true⟩ {} nexusEndblockSample = .ok ⟨1, 2, [([97], [65, 67])]⟩ ∧
+    Spec.Fmt.declaredNexus nexusEndblockSample = (some 9, none) := by decide
+
 /-- non-vacuity: `#NEXUS begin data; dimensions ntax=2 nchar=3; format datatype=dna; matrix a ACG / b A-T ; end;` -/
 def nexusSample : List Byte := [35, 78, 69, 88, 85, 83, 10, 98, 101, 103, 105, 110, 32, 100, 97, 116, 97, 59, 10, 100, 105, 109, 101, 110, 115, 105, 111, 110, 115, 32, 110, 116, 97, 120, 61, 50, 32, 110, 99, 104, 97, 114, 61, 51, 59, 10, 102, 111, 114, 109, 97, 116, 32, 100, 97, 116, 97, 116, 121, 112, 101, 61, 100, 110, 97, 59, 10, 109, 97, 116, 114, 105, 120, 10, 97, 32, 65, 67, 71, 10, 98, 32, 65, 45, 84, 10, 59, 10, 101, 110, 100, 59, 10]
 
